@@ -200,6 +200,7 @@ class Evaluator:
         self.sym_counter = itertools.count()
         self.trace_attr_stores = True
         self.assume = []         # extra facts (conditions known true)
+        self.merge_ifs = True
 
     # ------------------------------------------------------------------ path handling
     def reset_path(self, prefix):
@@ -233,9 +234,28 @@ class Evaluator:
                 stack.append(made[:i] + [not made[i]])
         return outcomes
 
+    def simplify_known(self, c):
+        """Drop conjuncts/disjuncts whose truth is already known on this path."""
+        if isinstance(c, App) and c.fn in ("and", "or"):
+            keep = []
+            for a in c.args:
+                k = self.known_truth(a)
+                if k is None:
+                    for f in self.assume:
+                        if f == a:
+                            k = True
+                        elif f == negate(a):
+                            k = False
+                if k is None:
+                    keep.append(a)
+                elif k != (c.fn == "and"):
+                    return Const(k)
+            return (conj(keep) if c.fn == "and" else disj(keep))
+        return c
+
     def decide(self, cond, node=None):
         """Truth of a condition value on this path (may fork)."""
-        c = self.truth(cond)
+        c = self.simplify_known(self.truth(cond))
         if isinstance(c, Const):
             return bool(c.value)
         for known, taken in self.pc:
@@ -684,7 +704,7 @@ class Evaluator:
     def st_If(self, st, fr):
         test = self.eval(st.test, fr)
         c = self.truth(test)
-        if not isinstance(c, Const) and self.mergeable_if(st):
+        if not isinstance(c, Const) and self.merge_ifs and self.mergeable_if(st):
             known = self.known_truth(c)
             if known is None:
                 return self.merged_if(st, c, fr)
@@ -980,7 +1000,7 @@ class Evaluator:
 
     def store(self, t, base, idx, v, fr):
         if isinstance(base, Dct):
-            if isinstance(idx, Const):
+            if isinstance(idx, V):
                 base.items[idx] = v
             else:
                 base.unknown = True
